@@ -117,13 +117,18 @@ fn months_single(c: &mut Ctx, d: &NaiveDate, n: u32) {
             let got = guard(|| if sub { dt.checked_sub_months(Months::new(n)) } else { dt.checked_add_months(Months::new(n)) });
             zoned_oracle(c, "month stepping", &format!("{dt:?} n={n} sub={sub}"), &dt, got, want.clone());
         }
-        let dt = ndt.and_utc();
-        let got = guard(|| if sub { dt.checked_sub_months(Months::new(n)) } else { dt.checked_add_months(Months::new(n)) });
-        match (got, &want) {
-            (Ok(g), Ok(w)) if g.map(|x| x.naive_utc()) == *w => c.count("deleg:utc-ok"),
-            _ => c.fail("DateTime<Utc> month stepping differs from the naive value", &format!("{dt:?} n={n} sub={sub}")),
+        if in_utc(&ndt) {
+            let dt = ndt.and_utc();
+            let got = guard(|| if sub { dt.checked_sub_months(Months::new(n)) } else { dt.checked_add_months(Months::new(n)) });
+            match (got, &want) {
+                (Ok(g), Ok(w)) if g.map(|x| x.naive_utc()) == *w => c.count("deleg:utc-ok"),
+                _ => c.fail("DateTime<Utc> month stepping differs from the naive value", &format!("{dt:?} n={n} sub={sub}")),
+            }
         }
     }
+}
+fn in_utc(x: &NaiveDateTime) -> bool {
+    *x >= DateTime::<Utc>::MIN_UTC.naive_utc() && *x <= DateTime::<Utc>::MAX_UTC.naive_utc()
 }
 /// a zone-aware result must be the naive result at the same offset, or nothing when that instant is
 /// not representable
@@ -578,7 +583,15 @@ fn gen_months(c: &mut Ctx, d: &NaiveDate) -> u32 {
 }
 fn gen_u32_field(c: &mut Ctx, d: &NaiveDate) -> u32 {
     let (y, m, _) = ymd(d);
-    match c.rng.below(7) {
+    match c.rng.below(8) {
+        // a value that a narrowing cast (u8 / u16 / i32 / the 5-, 9- or 4-bit fields of the packed
+        // words) would fold onto a small one: 2^j * k + small
+        7 => {
+            let j = *c.rng.pick(&[4u32, 5, 8, 9, 13, 16, 24, 31]);
+            let k = c.rng.range(1, 3) as u64;
+            let small = match c.rng.below(3) { 0 => c.rng.below(33), 1 => *c.rng.pick(&[59u64, 60, 365, 366]), _ => c.rng.below(13) };
+            (((k << j) + small) % (1u64 << 32)) as u32
+        }
         0 => *c.rng.pick(&[0u32, 1, 2, 11, 12, 13, 27, 28, 29, 30, 31, 32, 33, 58, 59, 60, 61, 364, 365, 366, 367, 511, 512, 1023]),
         1 => *c.rng.pick(&[u32::MAX, u32::MAX - 1, 1 << 31, (1 << 31) - 1, 1 << 16, 256, 255, 1 << 9, (1 << 9) + 1, (1u32 << 5) + 1, u32::MAX - 11, u32::MAX - 30, (1 << 4) + (1 << 9)]),
         2 => (month_len(y, m) + c.rng.range(-2, 1)) as u32,
@@ -649,15 +662,23 @@ fn time_fields(c: &mut Ctx) {
     if rn != r.map(|o| o.map(|x| d.and_time(x))) {
         c.fail(&format!("NaiveDateTime::{name} differs from replacing the field of the time and keeping the date"), &format!("{ndt:?} v={v}"));
     }
-    let dt = ndt.and_utc();
-    let ru = guard(|| match field {
-        0 => dt.with_hour(v),
-        1 => dt.with_minute(v),
-        2 => dt.with_second(v),
-        _ => dt.with_nanosecond(v),
-    });
-    if ru.map(|o| o.map(|x| x.naive_utc())) != rn {
-        c.fail(&format!("DateTime<Utc>::{name} differs from the naive value"), &format!("{dt:?} v={v}"));
+    // zone-aware values end at MAX_UTC = …T23:59:59.999999999: a leap-second reading of the very last
+    // second of the range is not a DateTime, neither as input nor as result
+    if in_utc(&ndt) {
+        let dt = ndt.and_utc();
+        let ru = guard(|| match field {
+            0 => dt.with_hour(v),
+            1 => dt.with_minute(v),
+            2 => dt.with_second(v),
+            _ => dt.with_nanosecond(v),
+        });
+        let want = rn.map(|o| o.filter(in_utc));
+        if want != rn {
+            c.count("time:utc:result-beyond-MAX_UTC");
+        }
+        if ru.map(|o| o.map(|x| x.naive_utc())) != want {
+            c.fail(&format!("DateTime<Utc>::{name} differs from the naive value (restricted to MIN_UTC..=MAX_UTC)"), &format!("{dt:?} v={v}"));
+        }
     }
 }
 
@@ -694,7 +715,7 @@ fn with_delegations(c: &mut Ctx, d: &NaiveDate, field: usize, v: u32, r: &Result
 pub fn run(c: &mut Ctx) {
     // ---- block plan (digests over every date of a block of years) -------------------------------------
     let month_counts: Vec<u32> = vec![0, 1, 11, 12, 13, 1199, 4800, 3_121_700, i32::MAX as u32, i32::MAX as u32 + 1, u32::MAX];
-    let field_values: Vec<u32> = vec![0, 1, 2, 3, 11, 12, 13, 28, 29, 30, 31, 32, 59, 60, 61, 365, 366, 367, 512, (1 << 31) - 1, 1 << 31, u32::MAX - 1, u32::MAX];
+    let field_values: Vec<u32> = vec![0, 1, 2, 3, 11, 12, 13, 28, 29, 30, 31, 32, 59, 60, 61, 365, 366, 367, 257, 512, 65537, 65536 + 366, (1 << 31) - 1, 1 << 31, u32::MAX - 1, u32::MAX];
     let abs_years: Vec<i32> = vec![MIN_YEAR - 1, MIN_YEAR, MAX_YEAR, MAX_YEAR + 1, i32::MIN, i32::MAX, 0, 1900, 2000, 2023, 2024];
     let rel_years: Vec<i32> = vec![-4, -1, 0, 1, 3, 4, 100, 400];
     enum B {
